@@ -298,6 +298,7 @@ func init() {
 		x.nearMissBlocks(fns)
 		x.siblingDecoys(fns)
 		x.straddleSS(fns)
+		x.specialPairContexts(fns)
 		x.pairsFor(fns, valid, 120000*x.scale)
 		relC01(x, 20000*x.scale)
 	}
@@ -323,6 +324,7 @@ func init() {
 		}
 		x.bytePairBlocks(fns)
 		x.offsetNeighbours(fns)
+		x.specialPairContexts(fns)
 		x.pairsFor(fns, both, 60000*x.scale)
 		x.equalPairs(fns, both, 60000*x.scale)
 		relC02(x)
@@ -331,6 +333,7 @@ func init() {
 		fns := []string{"Compare", "EqualFold"}
 		x.bytePairBlocks(fns)
 		x.offsetNeighbours(fns)
+		x.specialPairContexts(fns)
 		x.pairsFor(fns, both, 50000*x.scale)
 		x.equalPairs(fns, both, 50000*x.scale)
 		relC04(x, 60000*x.scale)
@@ -368,6 +371,7 @@ func init() {
 		x.nearMissBlocks(fns)
 		x.siblingDecoys(fns)
 		x.straddleSS(fns)
+		x.specialPairContexts(fns)
 		x.pairsFor(fns, valid, 150000*x.scale)
 		relC08(x, 30000*x.scale)
 	}
@@ -377,6 +381,7 @@ func init() {
 		x.nearMissBlocks(fns)
 		x.bytePairBlocks(fns)
 		x.fffdBait(fns)
+		x.specialPairContexts(fns)
 		x.affixFor(fns, valid, 60000*x.scale)
 		x.pairsFor(fns, valid, 20000*x.scale)
 		x.thresholdSweep(fns, streamValid, 40, 40)
@@ -432,6 +437,7 @@ func init() {
 		x.hashCollisions(fns)
 		x.siblingDecoys(fns)
 		x.straddleSS(fns)
+		x.specialPairContexts(fns)
 		for _, c := range "KkSsaZ1" { // single byte needles
 			for i := 0; i < 300*x.scale; i++ {
 				s, _ := x.g.byteCase(streamValid)
@@ -941,6 +947,22 @@ func (x *Ctx) strayTails(cb func(s []byte, r rune)) {
 				}
 			}
 		}
+		// no complete occurrence at all: the haystack BEGINS with a proper suffix of the encoding (a string cut through
+		// its first code point), ENDS with a proper prefix (cut through its last one), or is made of the two halves in
+		// the wrong order — where a backward or forward byte-wise comparison can run off the end of the haystack
+		for j := 1; j < w; j++ {
+			for _, fill := range []string{"", "x", "xyz", "0123456789abcdefghij"} {
+				for _, hs := range [][]byte{
+					append(append([]byte{}, e[j:]...), fill...),
+					append([]byte(fill), e[:j]...),
+					append(append(append([]byte{}, e[j:]...), fill...), e[:j]...),
+					append(append([]byte{}, e[j:]...), e[:j]...),
+				} {
+					cb(hs, r)
+					n++
+				}
+			}
+		}
 		// decoys that share the last byte, enough of them for a byte scan to give up, then the stray shape
 		var sib rune = -1
 		for _, q := range siblings(r) {
@@ -985,6 +1007,47 @@ func (x *Ctx) strayTailsSS(fns []string) {
 			x.eval(&Case{Fn: fn, S: s, T: []byte(string(unicode.SimpleFold(r)))}, false)
 		}
 	})
+}
+
+// specialPairContexts: the code points the sources special-case (dotted / dotless i, Kelvin, long s, sharp s, final
+// sigma, micro, Angstrom, Ohm, the theta and iota families, the DZ digraphs), every ordered pair inside each family,
+// with the pair at needle positions 0..3 (the first two code points of a needle are handled apart from the rest),
+// against haystacks short enough for the brute-force search and long enough for the main loop and Rabin-Karp
+func (x *Ctx) specialPairContexts(fns []string) {
+	groups := [][]rune{
+		{'I', 'i', 0x130, 0x131}, {'K', 'k', 0x212A}, {'S', 's', 0x17F}, {0xDF, 0x1E9E}, {0x3C3, 0x3C2, 0x3A3},
+		{0xB5, 0x3BC, 0x39C}, {0xC5, 0xE5, 0x212B}, {0x3A9, 0x3C9, 0x2126}, {0x3B8, 0x3D1, 0x3F4, 0x398},
+		{0x1C4, 0x1C5, 0x1C6}, {0x3B9, 0x345, 0x1FBE, 0x399}, {'x', 'X'},
+	}
+	pres := []string{"", "q", "qz", "qzw"}
+	posts := []string{"", "v", "zv"}
+	pads := []string{"", "0123", "0123456789012345", strings.Repeat("0123456789", 7)}
+	n := 0
+	for _, g := range groups {
+		for _, a := range g {
+			for _, b := range g {
+				for _, pre := range pres {
+					for _, post := range posts {
+						nd := []byte(pre + string(a) + post)
+						for _, pad := range pads {
+							hs := []byte(pad + pre + string(b) + post + pad)
+							for _, fn := range fns {
+								switch fn {
+								case "EqualFold", "Compare", "HasPrefix", "HasSuffix", "TrimPrefix", "TrimSuffix", "CutPrefix", "CutSuffix":
+									if pad != "" && (fn == "EqualFold" || fn == "Compare") {
+										continue
+									}
+								}
+								x.eval(&Case{Fn: fn, S: hs, T: nd}, n%211 == 0)
+								n++
+							}
+						}
+					}
+				}
+			}
+		}
+	}
+	x.note("special-cased code points, every pair of a family at needle positions 0..3: %d cases", n)
 }
 
 // fffdBait: a literal U+FFFD in one argument opposite a multi-byte code point in the other, behind (or in
